@@ -195,7 +195,10 @@ func exec1(r *hx.Run, op string) string {
 
 		return ans
 	case "sr":
-		return sx.ExecSR(f)
+		ans := sx.ExecSR(f)
+		checkPeek(r, op, f, ans)
+
+		return ans
 	case "sk":
 		return sx.ExecSK(f)
 	case "rw":
@@ -340,7 +343,7 @@ func (b *batch) emit(op, kind string) {
 	}
 	for _, t := range toks {
 		switch t {
-		case "num", "bool", "arr", "bytes", "bws", "obj", "ows", "coll", "peek":
+		case "num", "bool", "arr", "bytes", "bws", "obj", "ows", "coll", "peek", "ofr":
 			b.r.Count("call:" + t)
 		case "u8", "u16", "u32", "u64":
 			b.r.Count("prefix:" + t)
@@ -421,6 +424,18 @@ func main() {
 				prog := sx.ShowR(rp)
 				k := rng.Intn(len(rp) + 1)
 				b.emit(strings.Join(strings.Fields("sk "+hx.Hex(append(append([]byte(nil), data...), rbytes(rng, 0, 3)...))+" run ( "+sx.ShowR(rp[:k])+" ) off br run ( "+sx.ShowR(rp[k:])+" ) off br goto 0 br run ( "+prog+" ) off skip -"+strconv.Itoa(rng.Intn(3))+" off br"), " "), "seek")
+			}
+		}
+		if i%3 == 2 {
+			// PeekSize in front of every sized call, ReadObjectFromReader around (parts of) the program: the written data
+			// (+ tail) through a chunking reader
+			buf := newBuf()
+			if err := sx.RunW(wp, buf); err == nil {
+				data, _ := buf.Bytes()
+				rp, _ := sx.ReadOf(wp)
+				pp := withPeeks(rng, rp, true)
+				full := hx.Hex(append(append([]byte(nil), data...), hx.UnHex(tail)...))
+				b.emit("sr "+hx.Pick(rng, []string{"-", constChunks(1, total), randomChunks(rng), randomChunks(rng) + "!"})+" "+full+" "+sx.ShowR(pp), "peek")
 			}
 		}
 		if i%3 == 0 {
